@@ -25,19 +25,41 @@ structure ReorderInv (ext : Nat → Nat) (m : Mgr) : Prop where
 def HeldSame (ext : Nat → Nat) (m m' : Mgr) : Prop :=
   ∀ u : Nat, 0 < ext u → ∀ a, denN m'.tbl (u : Int) a = denN m.tbl (u : Int) a
 
+/-- what every reordering operation keeps between the state before and after: held references
+denote the same functions, the same names are declared, and the fields other than the node
+table, the counters, the order and the consumed schedule are untouched -/
+structure ReorderRel (ext : Nat → Nat) (m m' : Mgr) : Prop where
+  held : HeldSame ext m m'
+  names : ∀ v : String, m'.tbl.vars.contains v = m.tbl.vars.contains v
+  nvars : m'.nvars = m.nvars
+  roots : m'.roots = m.roots
+  ctx : m'.ctx = m.ctx
+  lastLen : m'.lastLen = m.lastLen
+  sched : m.sched = [] → m'.sched = []
+
+theorem ReorderRel.refl (ext : Nat → Nat) (m : Mgr) : ReorderRel ext m m :=
+  ⟨fun _ _ _ => rfl, fun _ => rfl, rfl, rfl, rfl, rfl, fun h => h⟩
+
+theorem ReorderRel.trans {ext : Nat → Nat} {a b c : Mgr} (h1 : ReorderRel ext a b)
+    (h2 : ReorderRel ext b c) : ReorderRel ext a c :=
+  ⟨fun u hu x => (h2.held u hu x).trans (h1.held u hu x), fun v => (h2.names v).trans (h1.names v),
+   h2.nvars.trans h1.nvars, h2.roots.trans h1.roots, h2.ctx.trans h1.ctx, h2.lastLen.trans h1.lastLen,
+   fun h => h2.sched (h1.sched h)⟩
+
 theorem ReorderInv.held_mem {ext : Nat → Nat} {m : Mgr} (h : ReorderInv ext m) {u : Nat}
     (hu : 0 < ext u) : m.tbl.Mem (u : Int) := by
   simpa [Tbl.Mem] using h.refExact.mem_of_ext_pos hu
 
-theorem swapOK (ext : Nat → Nat) : SwapOK (ReorderInv ext) (HeldSame ext) := by
-  refine ⟨fun m u _ a => rfl, fun a b c h1 h2 u hu x => (h2 u hu x).trans (h1 u hu x), fun m h => h.order, ?_, ?_⟩
+theorem swapOK (ext : Nat → Nat) : SwapOK (ReorderInv ext) (ReorderRel ext) := by
+  refine ⟨ReorderRel.refl ext, fun a b c h1 h2 => h1.trans h2, fun m h => h.order, ?_, ?_⟩
   · intro m h r hr
     have := h.refExact.mem_of_ext_pos (h.rootsHeld r hr)
     exact (Mgr.mem_iff m r).mpr this
   · intro m i h hi
     refine OkOrSched.mono ?_ (swapBody_spec m ext h.inv h.order h.refExact h.off i hi)
-    intro r m' hp
-    refine ⟨⟨hp.inv, hp.order, hp.refExact, ?_, ?_⟩, ?_, hp.exch, hp.sizes⟩
+    intro r m' ⟨hp, hsch⟩
+    refine ⟨⟨hp.inv, hp.order, hp.refExact, ?_, ?_⟩,
+      ⟨?_, hp.names, hp.exch.nvars, hp.exch.roots, hp.ctx, hp.lastLen, hsch⟩, hp.exch, hp.sizes⟩
     · rw [hp.ctx, hp.lastLen]; exact h.off
     · rw [hp.exch.roots]; exact h.rootsHeld
     · intro u hu a
@@ -46,11 +68,12 @@ theorem swapOK (ext : Nat → Nat) : SwapOK (ReorderInv ext) (HeldSame ext) := b
 
 /-- a collection keeps `ReorderInv` and the denotation of every held reference -/
 theorem gcSub_keeps {ext : Nat → Nat} {m m' : Mgr} (h : ReorderInv ext m) (hI : Inv m')
-    (hR : RefExact m' ext) (hs : GcSub m m') : ReorderInv ext m' ∧ HeldSame ext m m' := by
+    (hR : RefExact m' ext) (hs : GcSub m m') : ReorderInv ext m' ∧ ReorderRel ext m m' := by
   have hv : m'.tbl.vars = m.tbl.vars := hs.vars
   have hl : m'.tbl.l2v = m.tbl.l2v := hs.l2v
   have hn : m'.tbl.nvars = m.tbl.nvars := by show m'.tbl.vars.size = _; rw [hv]; rfl
-  refine ⟨⟨hI, ?_, hR, ?_, ?_⟩, ?_⟩
+  refine ⟨⟨hI, ?_, hR, ?_, ?_⟩, ⟨?_, fun v => by rw [hv], hn, hs.roots, hs.ctx, hs.lastLen,
+    fun h0 => by rw [hs.sched]; exact h0⟩⟩
   · exact ⟨fun v i => by rw [hv, hl]; exact h.order.inv v i,
       fun v i => by rw [hv, hn]; exact h.order.lt v i,
       fun i => by rw [hn, hl]; exact h.order.total i⟩
@@ -62,14 +85,15 @@ theorem gcSub_keeps {ext : Nat → Nat} {m m' : Mgr} (h : ReorderInv ext m) (hI 
     rw [hl]
     exact den_sub hs hI.wf.toWF _ h1 _
 
-theorem siftEnv (ext : Nat → Nat) : SiftEnv (ReorderInv ext) (HeldSame ext) := by
+theorem siftEnv (ext : Nat → Nat) : SiftEnv (ReorderInv ext) (ReorderRel ext) := by
   refine { toSwapOK := swapOK ext, gc := ?_, sched := ?_ }
   · intro m h
     obtain ⟨m', hrun, hp⟩ := collectGarbage_spec m ext h.inv h.refExact
     obtain ⟨a, b⟩ := gcSub_keeps h hp.inv hp.refExact hp.sub
     exact ⟨m', hrun, a, b, hp.sub.vars⟩
-  · intro m s h
-    exact ⟨⟨h.inv.setSched s, h.order, h.refExact.congr rfl rfl, h.off, h.rootsHeld⟩, fun u _ a => rfl⟩
+  · intro m s h hs0
+    exact ⟨⟨h.inv.setSched s, h.order, h.refExact.congr rfl rfl, h.off, h.rootsHeld⟩,
+      ⟨fun u _ a => rfl, fun _ => rfl, rfl, rfl, rfl, rfl, hs0⟩⟩
 
 /-! ### the public entry point `swap(x, y, all_levels=None)` -/
 
@@ -132,7 +156,7 @@ collection, len at the end)`. -/
 theorem swap_public_spec (ext : Nat → Nat) (m : Mgr) (h : ReorderInv ext m) (xa ya : VarOrLevel)
     (x a b : Nat) (hx : x + 1 < m.nvars) (ha : Resolves m xa a) (hb : Resolves m ya b)
     (hab : (a = x ∧ b = x + 1) ∨ (a = x + 1 ∧ b = x)) :
-    OkOrSched (fun r m' => ReorderInv ext m' ∧ HeldSame ext m m' ∧ Exch m m' x ∧ r.2 = m'.len ∧
+    OkOrSched (fun r m' => ReorderInv ext m' ∧ ReorderRel ext m m' ∧ Exch m m' x ∧ r.2 = m'.len ∧
         r.1 ≤ m.len)
       (swap xa ya false m) := by
   rw [swap_public_eq]
@@ -152,7 +176,7 @@ theorem swap_public_spec (ext : Nat → Nat) (m : Mgr) (h : ReorderInv ext m) (x
   rw [swap_eq_body mg xa ya x a b (by rw [hn]; exact hx) ha' hb' hab]
   refine OkOrSched.mono ?_ ((swapOK ext).step mg x hg (by rw [hn]; exact hx))
   intro r m' ⟨hP', hR', hE, hr⟩
-  refine ⟨hP', (swapOK ext).trans _ _ _ hsame hR', ⟨?_, hE.nvars.trans hn, hE.roots.trans hp.sub.roots⟩, ?_, ?_⟩
+  refine ⟨hP', hsame.trans hR', ⟨?_, hE.nvars.trans hn, hE.roots.trans hp.sub.roots⟩, ?_, ?_⟩
   · intro j; rw [hE.l2v j, hp.sub.l2v]
   · rw [hr]
   · rw [hr]
